@@ -1353,6 +1353,34 @@ impl Suite for ListenSuite {
                 tags: vec!["deeply-nested-valid-requests".into()],
             });
         }
+        // (b9) a request of exactly one megabyte (and one byte less and more) with its terminator and two further
+        //      requests in the same write: size limits, if any, must not swallow what follows
+        if ctx.prop == "C01" || ctx.prop == "C02" || ctx.prop == "C06" {
+            let cfg = &cfgs[0];
+            let mut clients = Vec::new();
+            for (k, size) in [1_048_575usize, 1_048_576, 1_048_577].iter().enumerate() {
+                tok += 1;
+                let t = format!("t{}z", tok);
+                let skeleton = serde_json::to_vec(&serde_json::json!({"method":"org.varlink.service.GetInfo","parameters":{"pad":"","token": t}})).unwrap();
+                let pad = "x".repeat(size - skeleton.len());
+                let mut total = serde_json::to_vec(&serde_json::json!({"method":"org.varlink.service.GetInfo","parameters":{"pad":pad,"token": t}})).unwrap();
+                assert_eq!(total.len(), *size);
+                total.push(0);
+                for _ in 0..2 {
+                    tok += 1;
+                    let v = serde_json::json!({"method": format!("no.such.t{}z.M", tok), "parameters": {"token": format!("t{}z", tok)}});
+                    total.extend_from_slice(&serde_json::to_vec(&v).unwrap());
+                    total.push(0);
+                }
+                clients.push(client_sx("half", 20 * k, &[total.clone()], &total));
+            }
+            let mut cl = vec![sx::atom("clients")];
+            cl.extend(clients);
+            cases.push(Case {
+                input: sx::tagged("listen-conc", vec![sx::atom("unix"), sx::nat(2), cfg.sx.clone(), sx::list(cl)]),
+                tags: vec!["megabyte-request-then-more-in-one-write".into()],
+            });
+        }
         // (c) faulty peers sending long malformed messages with non-ASCII bytes at boundary offsets
         {
             let cfg = &cfgs[1];
